@@ -56,6 +56,8 @@ def _partition_model(w, ev, ref, ax):
         labels = [inv.get(i) for i in ids]
 
         def mkarg(rec):
+            if (salt // 3) % 2:
+                return {g: tuple(v) for g, v in groups.items()}
             return {g: list(v) for g, v in groups.items()}
     else:
         def mkarg(rec):
